@@ -366,7 +366,8 @@ type vsubSub struct {
 	overflowed bool // a header arrived while 16 responses were unread
 	closed     bool // the consumer has seen the channel closed
 	attempts   int
-	late       int // retrieval attempts started after cancel / service stop
+	lastAns    map[int]string // height -> kind of the last answer its own retrieval of that height got
+	late       int            // retrieval attempts started after cancel / service stop
 	pending    *vsubCall
 }
 
@@ -397,6 +398,7 @@ type vsubGA struct {
 	pending *vsubCall
 	done    chan vsubGARes
 	failed  string // failure answers given, while it runs, to any retrieval of its (height, namespace)
+	last    string // kind of the last answer to its own collaborator call
 	okN     int    // results accepted
 	errN    int    // errors accepted (a failure answer had been given)
 }
@@ -702,7 +704,7 @@ func (s *vsubSys) Apply(ev string) error {
 		}
 		ctx, cancel := context.WithCancel(context.WithValue(context.Background(), vsubKey{}, vsubGAIdx))
 		s.ga.started++
-		s.ga.running, s.ga.height, s.ga.cancel, s.ga.failed = true, h, cancel, ""
+		s.ga.running, s.ga.height, s.ga.cancel, s.ga.failed, s.ga.last = true, h, cancel, "", ""
 		s.ga.done = make(chan vsubGARes, 1)
 		done := s.ga.done
 		s.mu.Unlock()
@@ -743,11 +745,20 @@ func (s *vsubSys) Apply(ev string) error {
 }
 
 func (s *vsubSys) answerFor(c *vsubCall, kind string) (a vsubAns, err error) {
+	s.mu.Lock()
 	if kind != "ok" {
-		s.mu.Lock()
 		s.noteFailure(c, kind)
-		s.mu.Unlock()
 	}
+	if c.sub == vsubGAIdx {
+		s.ga.last = kind
+	} else if c.sub >= 0 && c.sub < len(s.subs) {
+		sb := s.subs[c.sub]
+		if sb.lastAns == nil {
+			sb.lastAns = map[int]string{}
+		}
+		sb.lastAns[int(c.height)] = kind
+	}
+	s.mu.Unlock()
 	switch kind {
 	case "ok":
 		if c.kind == "hg" {
@@ -761,6 +772,18 @@ func (s *vsubSys) answerFor(c *vsubCall, kind string) (a vsubAns, err error) {
 		// the block's data could not be found by the getter (what the store getter and the
 		// shrex getter report while nobody asked has the block)
 		a.err = fmt.Errorf("verif: nobody has the block yet: %w", shwap.ErrNotFound)
+	case "dl":
+		// an inner, per-attempt timeout of the getter fired (cascade getter's split timeout,
+		// shrex per-request timeout): the error is the Err() of an already expired CHILD of the
+		// caller's context, while the caller's context itself is as alive as before
+		child, cancel := context.WithTimeout(c.ctx, 0)
+		<-child.Done()
+		a.err = fmt.Errorf("verif: getter attempt timed out: %w", child.Err())
+		cancel()
+	case "cn":
+		// an inner session / stream of the getter was cancelled: wraps context.Canceled while the
+		// caller's context is alive
+		a.err = fmt.Errorf("verif: getter session closed: %w", context.Canceled)
 	case "ctx":
 		a.err = c.ctx.Err()
 	default:
@@ -784,14 +807,26 @@ func vsubSameBlobs(got, ref []*Blob) string {
 	return ""
 }
 
-func vsubCause(f string) string {
-	switch {
-	case strings.Contains(f, "nf"):
-		return "after=getter-not-found-error"
-	case f != "":
-		return "after=getter-error"
+// vsubCause names the mechanism behind a wrong result: the kind of the last answer the caller's own
+// retrieval of that height got if that was a failure (a failure answer is followed either by a
+// retry or, wrongly, by the result); else the failure answers given to any retrieval of the same
+// height and namespace (callers whose retrieval was coalesced with another one).
+func vsubCause(last, set string) string {
+	class := func(k string) string {
+		switch {
+		case strings.Contains(k, "nf"):
+			return "after=getter-not-found-error"
+		case strings.Contains(k, "dl") || strings.Contains(k, "cn"):
+			return "after=getter-cancellation-class-error"
+		case k != "":
+			return "after=getter-error"
+		}
+		return "no-failure"
 	}
-	return "no-failure"
+	if last != "" && last != "ok" {
+		return class(last)
+	}
+	return class(set)
 }
 
 // collectGetAll judges the concurrent GetAll once it has returned: without error it must carry
@@ -826,7 +861,7 @@ func (s *vsubSys) collectGetAll() {
 	}
 	if d := vsubSameBlobs(r.blobs, s.chain.blocks[ga.height-1].ref[0]); d != "" {
 		s.failLocked("C20/getall/wrong-blobs/%s: concurrent GetAll(height %d) returned without error but %s (failure answers given meanwhile: %q)",
-			vsubCause(ga.failed), ga.height, d, ga.failed)
+			vsubCause(ga.last, ga.failed), ga.height, d, ga.failed)
 		return
 	}
 	ga.okN++
@@ -881,7 +916,7 @@ func (s *vsubSys) readOne(sb *vsubSub) {
 		f := s.failed[nsi*1000+want]
 		s.mu.Unlock()
 		s.fail("C20/wrong-blobs/%s: subscription %d response for height %d %s (failure answers given to retrievals of this height and namespace: %q)",
-			vsubCause(f), sb.idx, want, d, f)
+			vsubCause(sb.lastAns[want], f), sb.idx, want, d, f)
 		return
 	}
 	vsubRunStats.readsOK.Add(1)
@@ -939,8 +974,8 @@ func (s *vsubSys) snapshot() string {
 		}
 	}
 	if s.cfg.GetAlls > 0 {
-		fmt.Fprintf(&b, " | getall started=%d running=%v height=%d parked=%v failed=%q ok=%d err=%d",
-			s.ga.started, s.ga.running, s.ga.height, s.ga.pending != nil, s.ga.failed, s.ga.okN, s.ga.errN)
+		fmt.Fprintf(&b, " | getall started=%d running=%v height=%d parked=%v failed=%v ok=%d err=%d",
+			s.ga.started, s.ga.running, s.ga.height, s.ga.pending != nil, s.ga.failed != "", s.ga.okN, s.ga.errN)
 	}
 	return b.String()
 }
@@ -1300,7 +1335,10 @@ func (g vsubImmediateGetter) GetNamespaceData(_ context.Context, h *header.Exten
 }
 
 func vsubConfigs(tier string) []vsubCfg {
-	all := []string{"ok", "fail", "nf"}
+	// ok; opaque error; block-not-found error; error of an expired child context (DeadlineExceeded)
+	// and error wrapping context.Canceled, both while the caller's context is alive
+	all := []string{"ok", "fail", "nf", "dl", "cn"}
+	noNF := []string{"ok", "fail", "dl", "cn"}
 	full := func(c vsubCfg) vsubCfg {
 		c.Answers, c.Cancel, c.Stop, c.FClose, c.HdrStop = all, true, true, true, true
 		return c
@@ -1316,7 +1354,7 @@ func vsubConfigs(tier string) []vsubCfg {
 			{Name: "two-subs-overflow", Subs: 2, Prefill: 15, Headers: 2, Answers: []string{"ok", "fail"}, Cancel: true, Stop: true, Depth: 7},
 			// overlapping retrievals of the same (height, namespace)
 			full(vsubCfg{Name: "same-namespace", Subs: 2, SameNS: true, Headers: 2, Depth: whole}),
-			{Name: "sub-and-getall", Subs: 1, GetAlls: 2, Headers: 2, Answers: []string{"ok", "fail"}, Cancel: true, Stop: true, FClose: true, Depth: whole},
+			{Name: "sub-and-getall", Subs: 1, GetAlls: 2, Headers: 2, Answers: noNF, Cancel: true, Stop: true, FClose: true, Depth: whole},
 		}
 	}
 	return []vsubCfg{
@@ -1332,9 +1370,9 @@ func vsubConfigs(tier string) []vsubCfg {
 		// overlapping retrievals of the same (height, namespace)
 		full(vsubCfg{Name: "same-namespace", Subs: 2, SameNS: true, Headers: 3, Depth: whole}),
 		full(vsubCfg{Name: "same-namespace-hdr-getter", Subs: 2, SameNS: true, Headers: 2, HdrGetterBlocks: true, Depth: whole}),
-		{Name: "sub-and-getall", Subs: 1, GetAlls: 3, Headers: 3, Answers: []string{"ok", "fail"}, Cancel: true, Stop: true, FClose: true, HdrStop: true, Depth: whole},
-		{Name: "sub-and-getall-hdr-getter", Subs: 1, GetAlls: 2, Headers: 2, HdrGetterBlocks: true, Answers: []string{"ok", "fail"}, Cancel: true, Stop: true, Depth: whole},
-		{Name: "same-namespace-and-getall", Subs: 2, SameNS: true, GetAlls: 1, Headers: 2, Answers: []string{"ok", "fail"}, Cancel: true, Stop: true, Depth: whole},
+		{Name: "sub-and-getall", Subs: 1, GetAlls: 3, Headers: 3, Answers: noNF, Cancel: true, Stop: true, FClose: true, HdrStop: true, Depth: whole},
+		{Name: "sub-and-getall-hdr-getter", Subs: 1, GetAlls: 2, Headers: 2, HdrGetterBlocks: true, Answers: noNF, Cancel: true, Stop: true, Depth: whole},
+		{Name: "same-namespace-and-getall", Subs: 2, SameNS: true, GetAlls: 1, Headers: 2, Answers: noNF, Cancel: true, Stop: true, Depth: whole},
 		// last: the largest run takes whatever budget is left
 		full(vsubCfg{Name: "two-subs-overflow", Subs: 2, Prefill: 15, Headers: 3, Depth: 13}),
 	}
@@ -1344,7 +1382,7 @@ func TestVerifC20(t *testing.T) {
 	logging.SetAllLoggers(logging.LevelFatal)
 	rep := vx.NewReport("C20", "model_checking")
 	rep.Rule = "explicit-state BFS over environment-event histories of the real blob.Service.Subscribe (events per subscription: " +
-		"header handed over by the feed, answer ok/fail/not-found/ctx-error to the pending share-getter (or header-getter) call, consumer reads one response, " +
+		"header handed over by the feed, answer ok / opaque error / block-not-found error / error of an expired child context (DeadlineExceeded) / error wrapping context.Canceled (the last two while the caller's context is alive) / the caller's own ctx error to the pending share-getter (or header-getter) call, consumer reads one response, " +
 		"subscriber cancels, feed closes, header+service-stop at once; global: service stop, start of a concurrent Service.GetAll for the height subscription 0 is retrieving or will retrieve next and answers to its calls); subscriptions on different namespaces and on the SAME namespace (overlapping retrievals of one height and namespace, answered in both orders); a state is distinct and non-trivial when its canonical " +
 		"fingerprint (per subscription: headers taken, responses read, responses buffered, pending call and whether its context is done, cancelled/feed-closed/" +
 		"overflow flags, late-attempt count, stream closed; service stopped) was not seen before. Every distinct state is probed (all buffered responses " +
